@@ -134,7 +134,7 @@ func init() {
 							if ck == 32 {
 								h = int64(n)
 							}
-							emit(truncSeed{P: Params{cd.t, cd.e, B, 2, ck, h, false}, Shape: "text", Len: n, Jobs: j, Stride: 1})
+							emit(truncSeed{P: Params{cd.t, cd.e, B, 2, ck, h, false, false}, Shape: "text", Len: n, Jobs: j, Stride: 1})
 						}
 					}
 				}
@@ -142,8 +142,8 @@ func init() {
 			// headerless and random (stored) data
 			for _, n := range []int{0, 700, 3 * B} {
 				for _, j := range []uint{1, 3} {
-					emit(truncSeed{P: Params{"LZ", "HUFFMAN", B, 2, 32, -1, true}, Shape: "text", Len: n, Jobs: j, Stride: 1})
-					emit(truncSeed{P: Params{"NONE", "NONE", B, 2, 0, int64(n), false}, Shape: "random", Len: n, Jobs: j, Stride: 1})
+					emit(truncSeed{P: Params{"LZ", "HUFFMAN", B, 2, 32, -1, true, false}, Shape: "text", Len: n, Jobs: j, Stride: 1})
+					emit(truncSeed{P: Params{"NONE", "NONE", B, 2, 0, int64(n), false, false}, Shape: "random", Len: n, Jobs: j, Stride: 1})
 				}
 			}
 			// larger seeds, boundary-focused
@@ -151,7 +151,7 @@ func init() {
 			for _, cd := range big {
 				for _, cfg := range pick(c, [][2]int{{65536, 200000}}, [][2]int{{65536, 200000}, {262144, 1 << 20}, {4096, 70000}}) {
 					for _, j := range []uint{1, 3} {
-						emit(truncSeed{P: Params{cd.t, cd.e, uint(cfg[0]), 2, 32, -1, false}, Shape: "text", Len: cfg[1], Jobs: j, Stride: pick(c, 997, 97)})
+						emit(truncSeed{P: Params{cd.t, cd.e, uint(cfg[0]), 2, 32, -1, false, false}, Shape: "text", Len: cfg[1], Jobs: j, Stride: pick(c, 997, 97)})
 					}
 				}
 			}
